@@ -117,6 +117,14 @@ func newUnsafeStream[T any](
 		},
 		[]Lifecycle{NewLifecycle(func(ctx context.Context) error {
 			if optOpenFunc != nil {
+				// If the open func panics, sub streams it has already opened must be closed as well
+				// (same as when it returns an error), before the panic continues up the stack
+				defer func() {
+					if rvr := recover(); rvr != nil {
+						closeFunc()
+						panic(rvr)
+					}
+				}()
 				err := optOpenFunc(ctx, b)
 
 				// If we fail to open a lifecycle, we need to call the closeFunc, so that we don't leak resources
